@@ -22,6 +22,8 @@ def args_of(c, trackfile):
         a += ["--tracking", trackfile, "--FPTrack", c["track"]]
     if c.get("start"):   # start from a results file written beforehand (an evolved distribution whose charge is not exactly one)
         a += ["-i", c.get("startpath") or STARTFILE[c.get("n", 16)]]
+    if c.get("start") == 2:   # ... from an explicitly chosen record of it (the file holds a phase space for every step)
+        a += ["--InitialDistStep", 2]
     for x in XTRA[c.get("x", 0)]:
         if x == "--padding":      # replaces the base value
             i = a.index("--padding"); del a[i:i + 2]
@@ -76,6 +78,11 @@ def run(res, tier):
         if r0["rc"] != 0 or not os.path.exists(r0["h5"]):
             res.violate("C12/start-file-run-failed", "start%d.h5" % n, r0["log"][-300:], replay=dict(cmd=r0["cmd"]))
         STARTFILE[n] = r0["h5"]
+    # the same first leg with every phase space saved (six records), for starts from an explicitly chosen record
+    rd = pl.run(exe, ["-s", 16] + b0 + IMP["collimator"] + ["-n", 1, "--SavePhaseSpace", 1, "-T", 0.625], wd, out="startdense16.h5")
+    if rd["rc"] != 0 or not os.path.exists(rd["h5"]):
+        res.violate("C12/start-file-run-failed", "startdense16.h5", rd["log"][-300:], replay=dict(cmd=rd["cmd"]))
+    STARTDENSE = rd["h5"]
     trackfile = os.path.join(wd, "track.txt")
     with open(trackfile, "w") as f:
         f.write("0.5 0.3\n-1.2 0.8\n2.0 -1.5\n")
@@ -100,6 +107,10 @@ def run(res, tier):
                 cfgs.append(dict(outstep=2, save=1, track=t, verbose=0, name="a", renorm=r, rf=rf, imp=imp, n=n, mod=mod, start=st))
             cfgs.append(dict(outstep=2, save=1, track=None, verbose=1, name="a", renorm=r, rf=rf, imp=imp, n=n, mod=mod, start=st))
             cfgs.append(dict(outstep=3, save=2, track=1, verbose=1, name="b_other_name", renorm=r, rf=rf, imp=imp, n=n, mod=mod, start=st))
+    # a start from an explicitly chosen record of a file that holds one per step: full cadence product for two physics keys
+    for r, rf, imp in ((0, "linear", "collimator"), (-1, "sin", "none")):
+        for o, s_ in itertools.product(outsteps, saves):
+            cfgs.append(dict(outstep=o, save=s_, track=None, verbose=0, name="a", renorm=r, rf=rf, imp=imp, n=16, mod=0, start=2, startpath=STARTDENSE))
     # what the output file is called: also the name of the file the run starts from
     for base_c in [c for c in list(cfgs) if c.get("start") and c["name"] == "a" and c["track"] is None and c["verbose"] == 0 and c["outstep"] in (0, 2, 5) and c["save"] in (0, 1)]:
         cfgs.append(dict(base_c, name="inplace"))
@@ -121,13 +132,15 @@ def run(res, tier):
     refs = {}
     for k in sorted(set(phys_key(c) for c in cfgs)):
         refs[k] = dict(outstep=1, save=1, track=None, verbose=0, name="ref", renorm=k[0], rf=k[1], imp=k[2], n=k[3], mod=k[4], start=k[5], x=k[6])
+        if k[5] == 2:
+            refs[k]["startpath"] = STARTDENSE
 
     def do(ic):
         i, c, rep = ic
         out = "%s_%d_r%d.h5" % (c["name"], i, rep)
         if c["name"] == "inplace":      # the run is continued in place: the output file IS the file it starts from (a copy of the start file under the output's name)
             import shutil
-            shutil.copy(STARTFILE[c.get("n", 16)], os.path.join(wd, out))
+            shutil.copy(c.get("startpath") or STARTFILE[c.get("n", 16)], os.path.join(wd, out))
             c = dict(c, startpath=os.path.join(wd, out))
         r = pl.run(exe, args_of(c, trackfile), wd, out=out)
         doc = pl.h5(r["h5"], maxv=4000) if r["rc"] == 0 else None
